@@ -30,7 +30,8 @@ pre=re.findall(r'((?:GOOS|GOARCH)=\S+)',lines[-1])
 cmd=' '.join(pre)+' '+cmd if pre else cmd
 if dest is None:
     toks=cmd.split()
-    dest=toks[-1].rstrip('/')
+    pk=[t for t in toks if t=='.' or t.startswith('./')]
+    dest=(pk[-1] if pk else toks[-1]).rstrip('/')
     if dest in ('./...','.'): dest='.'
 print('DEMO_CMD=%s; PKG=%s' % (shlex.quote(cmd), shlex.quote(dest)))
 PY
